@@ -8,6 +8,7 @@
 mod input;
 mod oracle;
 mod bits;
+mod decode;
 mod per;
 mod probes;
 mod seq;
@@ -40,6 +41,7 @@ pub fn run_case(input: &Input) -> Result<(), String> {
         c if c.starts_with("bits_") => bits::run(&i),
         c if c.starts_with("per_") => per::run(&i),
         c if c.starts_with("seq_") => seq::run(&i),
+        c if c.starts_with("dec_") => decode::run(&i),
         "charset_char" => {
             use asn1rs::model::asn::Charset;
             let c = char::from_u32(i.v[0] as u32).unwrap();
@@ -93,8 +95,13 @@ fn main() {
             let mut tried = 0u64;
             let mut found: Option<(Input, String)> = None;
             {
+                let log_last = std::env::var_os("VERIF_LOG_LAST_INPUT");
                 let mut try_one = |i: Input| -> bool {
                     tried += 1;
+                    if let Some(path) = &log_last {
+                        // the process may die inside the real code (allocator abort, stack overflow): keep the input that was running
+                        let _ = std::fs::write(path, i.to_json());
+                    }
                     if let Err(e) = run_case(&i) {
                         found = Some((i, e));
                         true
@@ -106,6 +113,7 @@ fn main() {
                     "bits" => bits::search(&mut rng, budget, &mut try_one),
                     "per" => per::search(&mut rng, budget / 4, &mut try_one),
                     "seq" => seq::search(&mut rng, budget, &mut try_one),
+                    "decode" => decode::search(&mut rng, budget * 4, &mut try_one),
                     "charset" => {
                         // exhaustive over all chars: Charset::is_valid against the X.680 clause 41 alphabets
                         let mut c = 0u32;
@@ -128,6 +136,27 @@ fn main() {
                 std::process::exit(1);
             }
             println!("no failing input among {tried} inputs (group {}, seed {seed})", args[2]);
+        }
+        "trace" => {
+            // one line per input: the input and the complete observable outcome of decoding it (compared between two builds, C19)
+            let seed: u64 = args.get(3).and_then(|s| s.parse().ok()).unwrap_or(1);
+            let budget: u64 = args.get(4).and_then(|s| s.parse().ok()).unwrap_or(20000);
+            let mut rng = Rng(seed.wrapping_mul(0x9E3779B97F4A7C15) | 1);
+            use std::io::Write;
+            let out = std::io::stdout();
+            let mut out = std::io::BufWriter::new(out.lock());
+            for k in 0..budget * 4 {
+                let i = decode::make(&mut rng, k);
+                let i2 = i.clone();
+                let o = std::panic::catch_unwind(move || decode::outcome(&i2)).unwrap_or_else(|_| "PANIC".to_string());
+                writeln!(out, "{} => {}", i.to_json(), o).unwrap();
+            }
+        }
+        "outcome" => {
+            let i = Input::from_json(&args[2]).expect("bad input json");
+            let i2 = i.clone();
+            let o = std::panic::catch_unwind(move || decode::outcome(&i2)).unwrap_or_else(|_| "PANIC".to_string());
+            println!("{} => {}", i.to_json(), o);
         }
         "replay" => {
             let i = Input::from_json(&args[2]).expect("bad input json");
